@@ -163,6 +163,10 @@ def evaluate(scn, outs):
         groups = {}
         for wi, o in enumerate(outs):
             for r in o["results"]:
+                if r.get("exc") in ("MemoryError", "RecursionError"):
+                    # resource exhaustion depends on the harness's own limits and on what else is on the
+                    # stack / in memory (four tasks at once need four times the memory): no information
+                    continue
                 groups.setdefault(r["key"], []).append((wi, r))
         for key in sorted(groups):
             rs = groups[key]
